@@ -118,3 +118,43 @@ def closure_snapshot(x: int, z: int) -> bool:
     post: _
     """
     return ev(T['capture_let'], x=x, z=z) == [x, z]
+
+
+# --- added after seeded-change review: fn:sort over mixed numeric types (values exact quarters, decimals and doubles) -------------
+
+from decimal import Decimal  # noqa: E402
+T.update(parse_all({'sort_mixed': 'sort(($a, $b, $c))', 'sort_mixed_key': 'sort(($a, $b, $c), (), function($v) { -$v })'}))
+
+
+@ob(budget=60, tbudget=900, kind='hunt', bound='three values k/4 with |k| <= 8, each as xs:decimal, xs:double or xs:integer (carrier chosen by the solver): sort returns an ordered permutation (Decimal/double: bug-hunting)',
+    funcs=[F30 + ':sort', 'elementpath/compare.py:deep_compare'])
+def sort_mixed_numeric(ka: int, kb: int, kc: int, ta: int, tb: int, tc: int) -> bool:
+    """
+    pre: all(-8 <= k <= 8 for k in (ka, kb, kc)) and all(0 <= t <= 2 for t in (ta, tb, tc))
+    post: _
+    """
+    def mk(k, t):
+        return Decimal(k) / 4 if t == 0 else (k / 4 if t == 1 else k // 4)
+    vals = [mk(ka, ta), mk(kb, tb), mk(kc, tc)]
+    r = ev(T['sort_mixed'], a=vals[0], b=vals[1], c=vals[2])
+    rk = ev(T['sort_mixed_key'], a=vals[0], b=vals[1], c=vals[2])
+    f = [float(x) for x in r]
+    fk = [float(x) for x in rk]
+    return f == sorted(float(v) for v in vals) and fk == sorted((float(v) for v in vals), reverse=True)
+
+
+_SM = '''
+@ob(budget=45, tbudget=600, kind='hunt', family='sort-mixed', bound='sort of {desc} with values k/4, |k| <= 8: ordered permutation (Decimal/double comparison: not exhaustible, bug-hunting)', funcs=[F30 + ':sort', 'elementpath/compare.py:deep_compare'])
+def sort_mixed_{name}(ka: int, kb: int) -> bool:
+    """
+    pre: -8 <= ka <= 8 and -8 <= kb <= 8
+    post: _
+    """
+    a, b = {ea}, {eb}
+    r = ev(T['sort2'], a=a, b=b)
+    return [float(x) for x in r] == sorted([float(a), float(b)])
+'''
+T.update(parse_all({'sort2': 'sort(($a, $b))'}))
+for _n, (_ea, _eb, _d) in {'dec_dbl': ('Decimal(ka) / 4', 'kb / 4', '(xs:decimal, xs:double)'), 'dbl_dec': ('ka / 4', 'Decimal(kb) / 4', '(xs:double, xs:decimal)'),
+                           'int_dbl': ('ka', 'kb / 4', '(xs:integer, xs:double)'), 'dec_int': ('Decimal(ka) / 4', 'kb', '(xs:decimal, xs:integer)')}.items():
+    define(_SM.format(name=_n, ea=_ea, eb=_eb, desc=_d), globals())
